@@ -111,11 +111,46 @@ def main():
               kind='bind-value', program=src + '\n' + lines[1 + li],
               what='%s ; %s: parameters receive %s under CPython but pytype infers %s' % (
                   src.splitlines()[0], lines[1 + li], want_val[line], t)))
+  # assignments to __defaults__ (SignedFunction.set_function_defaults): the new tuple replaces the positional defaults,
+  # keyword-only defaults stay
+  ndef = 0
+  dsigs = ['a, b', 'a=1, b=2', 'a, b=2', 'a, b=2, c=3', 'a, *, k=1', 'a=1, *, k', 'a, b=2, *, k=1, m', 'a=1, b=2, *args, k=3', 'a, /, b=2, *, k=1, **kw']
+  dtuples = ['()', '(5,)', '(5, 6)', '(5, 6, 7)']
+  dcalls = ['()', '(1)', '(1, 2)', '(1, 2, 3)', '(k=9)', '(1, k=9)', '(1, 2, k=9, m=8)', '(b=1)', '(1, m=2)']
+  for sg in dsigs:
+    for tp in dtuples:
+      lines = ['def f(%s):\n  return 0' % sg, 'f.__defaults__ = %s' % tp] + ['r%d = f%s' % (i, c) for i, c in enumerate(dcalls)]
+      prog = '\n'.join(lines) + '\n'
+      env = {}
+      try:
+        exec('def f(%s):\n  return 0\nf.__defaults__ = %s\n' % (sg, tp), env)   # pylint: disable=exec-used
+      except Exception:  # pylint: disable=broad-except
+        continue
+      want = {}
+      for i, c in enumerate(dcalls):
+        try:
+          eval('f' + c, env)   # pylint: disable=eval-used
+          want[4 + i] = False
+        except TypeError:
+          want[4 + i] = True
+      try:
+        analysis = io.generate_pyi_ast(prog, opts)
+      except Exception as e:  # pylint: disable=broad-except
+        violations.append(dict(kind='vm-crash', what='analysis raised %r' % (e,), program=prog))
+        continue
+      got = {e.line for e in analysis.context.errorlog.unique_sorted_errors() if e.name in ERRS}
+      for i, c in enumerate(dcalls):
+        ndef += 1
+        if want[4 + i] != ((4 + i) in got) and len(violations) < 20:
+          violations.append(dict(kind='bind-error', program='def f(%s): ...\nf.__defaults__ = %s\nf%s' % (sg, tp, c),
+                                 what='def f(%s); f.__defaults__ = %s; f%s: CPython %s, pytype %s' % (
+                                     sg, tp, c, 'raises TypeError' if want[4 + i] else 'binds', 'reports an error' if (4 + i) in got else 'reports nothing')))
   print(json.dumps(dict(
       violations=violations,
       bounded=[dict(function='SignedFunction._map_args through the VM (InterpreterFunction.call)',
                     bound='%d signatures (<=2 positional-only, <=2 positional-or-keyword, <=2 keyword-only, defaults, *args, **kw) x %s call shapes (<=4 positionals, <=2 keywords)' % (
-                        min(nsig, len(sigs)), '40 sampled' if tier == 'quick' else 'all 185'), cases=calls)],
+                        min(nsig, len(sigs)), '40 sampled' if tier == 'quick' else 'all 185'), cases=calls),
+               dict(function='SignedFunction.set_function_defaults through the VM (f.__defaults__ = tuple)', bound='9 signatures x 4 tuples x 9 calls', cases=ndef)],
       spec_validation=[dict(spec='bind_ok/bound_value (z3) vs real calls: the kernel is proved equal to the spec, and the VM is compared with real calls here')],
       counts=dict(calls=calls, distinct_shapes=len(nontrivial)))))
 
